@@ -62,6 +62,10 @@ def faults(g):
     margin = g.pick(["", "    ", "\t", "  "])
     add("block", "<%\n" + "".join(margin + l + "\n" for l in pre) + margin + "z = " + BAD + "\n" + "".join(margin + l + "\n" for l in post) + "%>",
         dline=1 + len(pre))
+    add("block-opener-trailing-blank", "<% \n" + margin + "z = " + BAD + "\n%>", dline=1)
+    add("block-whitespace-only-line", "<%\n  \t\n" + "\n" * k + margin + "z = " + BAD + "\n%>", dline=2 + k)
+    add("module-block-opener-trailing-tab", "<%!\t\n" + margin + "z = " + BAD + "\n%>", dline=1)
+    add("expr-opener-trailing-blank", "${ \n" + " \n" * k + "(" + BAD + ")}", dline=1 + k)
     add("block-oneline", "<% z = " + BAD + " %>")
     add("block-tagline", "<% a = 1\n" + "b = 2\n" * k + "z = " + BAD + " %>", dline=1 + k)
     add("module-block", "<%!\n" + "".join(margin + l + "\n" for l in pre) + margin + "z = " + BAD + "\n%>", dline=1 + len(pre))
@@ -151,7 +155,7 @@ def build(data):
         prefix.append([kind, txt])
     inline = g.pick(["", "", "abc ", "  x", "é—", "\t"])
     suffix = "".join(g.pick(UNITS)[1].replace("{N}", "9%d" % i) for i in range(g.int(0, 2)))
-    return {"prefix": prefix, "inline": inline, "suffix": suffix, "fseed": [g._b() for _ in range(6)]}
+    return {"prefix": prefix, "inline": inline, "suffix": suffix, "fseed": [g._b() for _ in range(6)], "no_final_newline": g.chance(30)}
 
 
 def assemble(subject, fault):
@@ -162,6 +166,9 @@ def assemble(subject, fault):
     head = pre + inline
     suffix = "" if fault["kind"].startswith(("unterminated-", "unclosed-")) else subject["suffix"]
     src = head + fault["text"] + ("\n" if not fault["text"].endswith("\n") else "") + suffix
+    if subject.get("no_final_newline") and fault["dline"] == 0 and fault["at"] == 0 and "\n" not in fault["text"].rstrip("\n"):
+        # the fault sits on the very last line of a template that does not end with a newline
+        src = head + fault["text"].rstrip("\n")
     off = len(head) + fault["at"]
     line = src.count("\n", 0, off) + 1
     col = off - (src.rfind("\n", 0, off) + 1) + 1
@@ -267,7 +274,7 @@ def run_subject(subject, ev, fails, tmp, only=None):
     for fault in faults(g):
         if only and fault["kind"] not in only:
             continue
-        case = {"subject": subject, "fault": fault, "html": (len(fails) + ev.evaluations) % 5 == 0}
+        case = {"subject": subject, "fault": fault, "html": (len(fails) + ev.evaluations) % 5 == 0 or bool(subject.get("no_final_newline"))}
         try:
             eline, ecol = check_case(case, ev, tmp)
         except Failure as f:
